@@ -51,13 +51,22 @@ func (pub Pubkey) Serialize() []byte {
 // PUBKEY_LENGTH is the length of a serialized public key (one G2 point: four 32-byte coordinates).
 const PUBKEY_LENGTH = 128
 
-// Deserialize accepts exactly the bytes Serialize writes for a (non-identity) public key.
+// Deserialize accepts exactly the bytes Serialize writes for a (non-identity) public key. On any error
+// pub is left empty (IsValid false), also when it held a key before: a failed parse must not leave a
+// usable value behind. The point is parsed into a fresh value, so a key that shares its point with pub
+// (Pubkey copies do) is never overwritten.
 func (pub *Pubkey) Deserialize(b []byte) error {
 	if len(b) != PUBKEY_LENGTH {
+		pub.value = bn_curve.G2{}
 		return fmt.Errorf("pubkey Deserialize failed: length %d, want %d", len(b), PUBKEY_LENGTH)
 	}
-	_, error := pub.value.Unmarshal(b)
-	return error
+	var value bn_curve.G2
+	if _, err := value.Unmarshal(b); err != nil {
+		pub.value = bn_curve.G2{}
+		return err
+	}
+	pub.value = value
+	return nil
 }
 
 func (pub Pubkey) GetHexString() string {
@@ -67,6 +76,7 @@ func (pub Pubkey) GetHexString() string {
 func (pub *Pubkey) SetHexString(s string) error {
 	b, err := decodeHexExact(s, PUBKEY_LENGTH)
 	if err != nil {
+		pub.value = bn_curve.G2{}
 		return err
 	}
 	return pub.Deserialize(b)
@@ -129,6 +139,7 @@ func (pub Pubkey) MarshalJSON() ([]byte, error) {
 func (pub *Pubkey) UnmarshalJSON(data []byte) error {
 	str := string(data[:])
 	if len(str) < 2 {
+		pub.value = bn_curve.G2{}
 		return fmt.Errorf("data size less than min.")
 	}
 	str = str[1 : len(str)-1]
